@@ -109,7 +109,14 @@ class Check:
         """Always rebuilds against /repo's current working tree (build cache makes it cheap)."""
         shutil.copy(os.path.join(REPO, "go.sum"), os.path.join(HARNESS, "go.sum"))
         out = os.path.join(self.work, "vh")
-        p = sh(["go", "build", "-tags", "verif", "-o", out, "./cmd/vh"], cwd=HARNESS, env=GOENV, check=False, timeout=900)
+        for attempt in range(4):
+            p = sh(["go", "build", "-tags", "verif", "-o", out, "./cmd/vh"], cwd=HARNESS, env=GOENV, check=False, timeout=900)
+            # while several people edit harness/ concurrently another package may be mid-edit: retry when the
+            # errors are outside this property's own package
+            own = "internal/%s/" % self.pid.lower()
+            if p.returncode == 0 or own in p.stdout or "/repo/" in p.stdout or os.environ.get("VERIF_NO_RETRY"):
+                break
+            time.sleep(20)
         if p.returncode != 0:
             raise Infra("harness does not build against /repo:\n" + p.stdout[-6000:])
         self.vh = out
